@@ -144,10 +144,38 @@ package rtsp
 //@   modifies
 //@   ensures ok == (s.authMode == auth.NoneAuth || (s.user != nil && permits(s.user, s.path, right)))
 
-//@ func (s *Session) checkAuth(r *Request) (user *auth.User, err error)
-//@   trusted
-//@   requires s != nil && r != nil
+// authentication: the user whose password / digest response is checked, and who is returned, is the entry the user table
+// holds under the request's user name NOW (looked up during this call), never one remembered from an earlier request
+//@ import "github.com/cnotch/ipchub/provider/security"
+//@ spec func tableUser(name string) *auth.User = uninterpreted
+//@ global formatDigestAuthResponse readonly
+//@ extern func auth.Get(userName string) (u *auth.User)
 //@   modifies
+//@   ensures u == tableUser(userName)
+//@ extern func (req *fmtrtsp.Request) BasicAuth() (username string, password string, ok bool)
+//@   modifies
+//@ extern func (req *fmtrtsp.Request) DigestAuth() (username string, response string, ok bool)
+//@   modifies
+//@ extern func (u *auth.User) ValidatePassword(password string) (err error)
+//@   requires u != nil
+//@   modifies
+//@ extern func (u *auth.User) PasswordMD5() (s string)
+//@   requires u != nil
+//@   modifies
+//@ extern func fmtrtsp.FormatDigestAuthResponse(realm string, nonce string, method string, url string, username string, password string) (s string)
+//@   modifies
+//@ extern func security.NewID() (id security.ID)
+//@   modifies
+//@ extern func (id security.ID) MD5() (s string)
+//@   modifies
+//@ func (s *Session) checkAuth(r *Request) (user *auth.User, err error)
+//@   requires s != nil && r != nil && r.URL != nil
+//@   modifies s.nonce
+//@   local username string
+//@   assert[call:ValidatePassword] user == tableUser(username) && user != nil
+//@   assert[call:formatDigestAuthResponse] user == tableUser(username) && user != nil
+//@   ensures s.authMode != auth.BasicAuth && s.authMode != auth.DigestAuth ==> user == nil && err == nil
+//@   ensures (s.authMode == auth.BasicAuth || s.authMode == auth.DigestAuth) && err == nil ==> user != nil
 //@ func (s *Session) Close() (err error)
 //@   trusted
 //@   requires s != nil
